@@ -12,13 +12,24 @@ use std::path::PathBuf;
 fn main() {
     let args: Vec<String> = std::env::args().skip(1).collect();
     if args.is_empty() {
-        eprintln!("usage: cbv <Cxx> [--tier quick|thorough] [--replay file] [--opt k=v]...");
+        println!("usage: cbv <Cxx> [--tier quick|thorough] [--replay file] [--opt k=v]...");
         std::process::exit(2);
     }
     // die with whatever started us (./check, a timeout wrapper): workers die with us in turn (par.rs), so a killed
     // run leaves nothing spinning behind
     // SAFETY: plain prctl on the calling process
     unsafe { libc::prctl(libc::PR_SET_PDEATHSIG, libc::SIGKILL) };
+    // Standard error is a device on which every write fails (what a full log disk or a vanished log collector
+    // looks like): the harness reports on stdout only, and code under test that prints a diagnostic there must
+    // not panic or die of it.
+    // SAFETY: plain open/dup2 on our own descriptors
+    unsafe {
+        let fd = if std::env::var_os("VERIF_KEEP_STDERR").is_some() { -1 } else { libc::open(c"/dev/full".as_ptr(), libc::O_WRONLY) };
+        if fd >= 0 {
+            libc::dup2(fd, 2);
+            libc::close(fd);
+        }
+    }
     // The daemon installs a tracing subscriber as the first thing in main(); with none installed the arguments
     // of its log statements are never evaluated, which would hide whatever they do. Same maximum level as the
     // daemon, output discarded, no timestamps (a timestamp would be a clock read of its own).
